@@ -36,6 +36,8 @@ def Zlib.Bounded (Z : Zlib) : Prop := ∀ y x, Z.readOnce y = some x → x.lengt
 
 inductive Err where
   | tooShort | notAscii | version | base64 | zlib | bincode | invalid
+  /-- the Rust code would panic (string slice out of range or off a char boundary) -/
+  | panic
   deriving Repr, DecidableEq, Inhabited
 
 def digit (n : Nat) : UInt8 := UInt8.ofNat (48 + n % 10)
@@ -54,21 +56,50 @@ def serialize (Z : Zlib) (m : Machine) : Bytes :=
 
 def serializePanics (m : Machine) : Bool := decide (MAX < (Codec.encMachine m).length)
 
-/-- `<Machine as FromStr>::from_str` -/
+/-- is byte offset `i` a `char` boundary of the UTF-8 string `s` (`str::is_char_boundary`) -/
+def isBoundary (s : Bytes) (i : Nat) : Bool :=
+  i == s.length ||
+    match s[i]? with
+    | some b => decide (b.toNat < 128) || decide (192 ≤ b.toNat)
+    | none => false
+
+/-- `&s[lo..hi]` on a `str`: `none` where Rust panics -/
+def strSlice (s : Bytes) (lo hi : Nat) : Option Bytes :=
+  if lo ≤ hi ∧ hi ≤ s.length ∧ isBoundary s lo ∧ isBoundary s hi then some ((s.drop lo).take (hi - lo)) else none
+
+/-- the part of `from_str` after the version check, on the text following the version -/
+def fromBody (Z : Zlib) (body : Bytes) : Except Err Machine :=
+  match B64.dec body with
+  | none => .error .base64
+  | some compressed =>
+    match Z.readOnce compressed with
+    | none => .error .zlib
+    | some raw =>
+      match Codec.decodeMachine raw with
+      | none => .error .bincode
+      | some m => if Validate.machine m then .ok m else .error .invalid
+
+/-- `<Machine as FromStr>::from_str`, string slices checked -/
 def fromStr (Z : Zlib) (s : Bytes) : Except Err Machine :=
   if s.length < 3 then .error .tooShort
   else if !isAscii s then .error .notAscii
-  else if s.take 2 ≠ versionStr then .error .version
   else
-    match B64.dec (s.drop 2) with
-    | none => .error .base64
-    | some compressed =>
-      match Z.readOnce compressed with
-      | none => .error .zlib
-      | some raw =>
-        match Codec.decodeMachine raw with
-        | none => .error .bincode
-        | some m => if Validate.machine m then .ok m else .error .invalid
+    match strSlice s 0 2 with
+    | none => .error .panic
+    | some version =>
+      if version ≠ versionStr then .error .version
+      else
+        match strSlice s 2 s.length with
+        | none => .error .panic
+        | some body => fromBody Z body
+
+/-- the same function with the slices written as `take`/`drop` (equal to `fromStr`, see
+    `fromStr_eq_pure`: the ASCII test makes every offset a char boundary) -/
+def fromStrPure (Z : Zlib) (s : Bytes) : Except Err Machine :=
+  if s.length < 3 then .error .tooShort
+  else if !isAscii s then .error .notAscii
+  else if s.take 2 ≠ versionStr then .error .version
+  else fromBody Z (s.drop 2)
 
 end MStr
 end Mb
